@@ -341,6 +341,8 @@ var Describe = &atree.VerifDescribe{
 		switch x := s.(type) {
 		case TV:
 			return fmt.Sprintf("v%d", x.Pay)
+		case FS:
+			return fmt.Sprintf("f%d", x.Pay)
 		case NK:
 			return fmt.Sprintf("v%d", x.TV().Pay)
 		}
@@ -442,6 +444,8 @@ func AsTV(v atree.Value) (TV, bool) {
 		return x, true
 	case NK:
 		return x.TV(), true
+	case FV: // failing.go: a TV whose Storable() can fail
+		return x.TV, true
 	}
 	return TV{}, false
 }
@@ -453,6 +457,8 @@ func AsTVStorable(s atree.Storable) (TV, bool) {
 		return x, true
 	case NK:
 		return x.TV(), true
+	case FS: // failing.go: read WITHOUT calling its StoredValue()
+		return x.TV, true
 	}
 	return TV{}, false
 }
